@@ -53,6 +53,11 @@ pub mod uuid {
         {
             Uuid { v: 0 }
         }
+        pub fn is_nil(&self) -> (r: bool)
+            ensures r == (self.v == 0),
+        {
+            self.v == 0
+        }
         #[verifier::external_body]
         pub fn new_v4() -> (r: Uuid)
             ensures is_v4(r),
